@@ -133,7 +133,7 @@ def locations_survive_packing(ctx, n, minor):
 # attribute `fullDensFrac`, which getTD()/adjustTD() do not see, so p.theoreticalDensityFrac stays 1.0 and a loaded
 # sulfur component has the full density whatever the original's fraction was.  Sulfur joins the symbolic choice of
 # material classes when this flag is False.
-KNOWN_DEFECT_sulfur_density_fraction_not_persisted = True
+KNOWN_DEFECT_sulfur_density_fraction_not_persisted = False  # repaired in /repo (fix: 96beb7f)
 TD_MATERIALS = ["B4C", "UO2", "ThO2", "MOX"] + ([] if KNOWN_DEFECT_sulfur_density_fraction_not_persisted else ["Sulfur"])
 
 import armi.materials.sulfur as _sulfurmod   # noqa: E402
